@@ -88,6 +88,9 @@ func init() {
 					draw, _ = new(big.Int).SetString(cs.X[5:], 16)
 				}
 				c09Materials(c, cs.Group, y, cs.X == "padded", draw)
+			case "range-ends":
+				v, _ := new(big.Int).SetString(cs.X[5:], 16)
+				c09RangeEnd(c, v, "the chosen value")
 			case "rand":
 				c09Stuck = cs.Stuck
 				c09Rand(c, cs.Fn, engine.NewReplayRun(cs.Env))
@@ -131,6 +134,19 @@ func runC09(c *engine.Ctx) {
 			draws = append(draws, new(big.Int).Add(pow2(kbits), big.NewInt(0x1234567)))
 		}
 		draws = append(draws, c09LeadingZeroExponent(gi))
+		if gi == 0 && c.Mine() {
+			// draws at the ends of the range: whatever comes back without an error lies in [2^128, 2^2048) — a draw
+			// below the lower end is thrown away and the source is asked again
+			for _, kbits := range []uint{0, 1, 64, 126, 127, 128, 129, 2047, 2048} {
+				for _, delta := range []int64{-2, -1, 0, 1, 2} {
+					v := new(big.Int).Add(pow2(kbits), big.NewInt(delta))
+					if v.Sign() < 0 || v.BitLen() > 2048 {
+						continue
+					}
+					c09RangeEnd(c, v, fmt.Sprintf("2^%d%+d", kbits, delta))
+				}
+			}
+		}
 		for _, d := range draws {
 			if c.Mine() {
 				c09Materials(c, gi, y, false, d)
@@ -470,6 +486,30 @@ func c09Rand(c *engine.Ctx, fn string, r *engine.Run) {
 		}
 	}
 	c.Sample("rand/"+fn, map[string]interface{}{"fn": fn, "answers": seam.Answers(), "octets_consumed": seam.Consumed()})
+}
+
+// c09RangeEnd: the source delivers v as its first 256-octet draw; whatever GenerateRandomNumber returns without an
+// error lies in [2^128, 2^2048).
+func c09RangeEnd(c *engine.Ctx, v *big.Int, what string) {
+	c.Evals++
+	seam := engine.NewSeam(nil, nil)
+	seam.Stream = 777
+	seam.Script = [][]byte{v.FillBytes(make([]byte, 256))}
+	restore := engine.Install(seam)
+	var n *big.Int
+	var err error
+	pi := engine.Catch(func() { n, err = security.GenerateRandomNumber() })
+	restore()
+	cs := c09Case{K: "range-ends", X: "draw:" + v.Text(16)}
+	if pi != nil {
+		c.Violate(pi.Sig(), "GenerateRandomNumber panics: "+pi.Value, cs)
+		return
+	}
+	if err == nil && (n == nil || n.Cmp(two128) < 0 || n.Cmp(two2048) >= 0) {
+		c.Violate("exponent-out-of-range/chosen-draw", fmt.Sprintf("the source delivers %s as its first draw: GenerateRandomNumber returns a number of %d bits", what, n.BitLen()), cs)
+		return
+	}
+	c.Count("range_end_draws", 1)
 }
 
 // c09Materials: CalculateDiffieHellmanMaterials with peer value y under a healthy scripted source.
